@@ -148,6 +148,19 @@ Print Assumptions C16_deferred_cache_refuted.
 Theorem C16_deferred_cache_fixed : P_b_blocks b_deferred (model_trace_blocks cfg_fixed b_deferred) = true.
 Proof. exact deferred_fixed. Qed.
 
+(** a pending logout is final unless it is rejected or withdrawn: clause 5 of the trace predicate ([logout_step]).
+    On the code as it is it FAILS: UnPauseChainService (approved activation / update of the appchain) restores the
+    paused proposals of every registered service, also of one that is not paused - the freeze proposal that the
+    pending logout had locked is restored and re-triggered from logouting; the service is usable, the approved logout
+    then yields frozen instead of forbidden and an approved activation brings the logged-out service back.
+    Reproduced on the real executor (corpus/C16_w09).  With the restore limited to paused services the history
+    satisfies the property. *)
+Theorem C16_unpause_locked_refuted : P_b h_unpause_locked (model_trace cfg_code h_unpause_locked) = false.
+Proof. exact unpause_locked_refuted. Qed.
+Print Assumptions C16_unpause_locked_refuted.
+Theorem C16_unpause_locked_fixed : P_b h_unpause_locked (model_trace cfg_code_no_restore h_unpause_locked) = true.
+Proof. exact unpause_locked_fixed. Qed.
+
 (** why [C16_cascade_partial] stays partial: on the code as it is the full statement - "... and this persists until an
     approved activation" - is FALSE.  Witness (reproduced on the real executor, corpus/C16_w08): freeze of the
     appchain submitted; update of its service pending; logout of the service submitted (locks the update; a
